@@ -940,8 +940,8 @@ def _ag_scalar(cx, rng, tn, before, ex, edges, n, Dmax, base, tol, dtype):
                 return "inplace=False modified the network"
 
         cx.check("contract_compressed along the given tree with max_bond >= exact bond and cutoff=0 == exact contraction", p, t_cc)
-        if n < 3:
-            continue
+        if n < 3 or (cm == "local-fit" and (n > 5 or Dmax > 2)):
+            continue  # (a truncating local fit solves dense normal equations over the whole neighbourhood: tiny graphs only)
         cap = int(rng.integers(2, Dmax * Dmax)) if Dmax > 1 else 1
         p2 = dict(base, tree=tname, compress_mode=cm, cap=cap)
 
@@ -1053,7 +1053,7 @@ def _ag_vector(cx, rng, edges, n, D, Dmax, base, tol, dtype, how):
                 return same(r, 100 if cm == "local-fit" else 1)
 
             cx.check("compress_all (untruncated) leaves the dense tensor unchanged", p, t_ca)
-        if n >= 2:
+        if n >= 2 and not (cm == "local-fit" and (n > 5 or Dmax > 2)):
             cap = int(rng.integers(1, Dmax)) if Dmax > 1 else 1
 
             def t_cac(cm=cm, cap=cap):
